@@ -101,6 +101,7 @@ impl Property for C20 {
             env: None,
             real: None,
             note: String::new(),
+            decoy_in_cwd: false,
         };
         let (ropt, r): (Opt, String) = match rng.weighted(&[6, 2, 1, 2]) {
             0 => {
